@@ -1,6 +1,7 @@
 package main
 
 import (
+	"bytes"
 	"errors"
 	"fmt"
 	"io"
@@ -116,7 +117,7 @@ func runStream(rd io.Reader, reuseMode int, r *Rng) streamOutcome {
 
 func checkC09(c *Ctx) {
 	r := c.Rng
-	c.Ev.Coverage.Rule = "NDJSON streams of 1..400 documents of very different sizes (a share with white space between tokens, and lines whose last scalar — every kind — sits 1..8 bytes before the end of the line with white space before the closer) with blank lines anywhere (also only blank lines at the end, CRLF), read through a reader that fragments at sizes from {1,2,3,7,64,4095,4096,4097,random,whole} (cuts inside tokens, inside blank runs, right before/after LF), with the reuse channel fed never/sometimes/always, one run in five with a consumer that lags behind the reader (queue full when the reader ends); chunks in which an escape sequence straddles the 64-byte block boundary at which stage 1 hands over a full 1408-entry index buffer (five line shapes, boundary swept); delivered roots in order must equal the Coq specification nd_spec of the stream, followed by io.EOF and close, nothing after the error. With an injected reader error at a sweep of offsets (every offset for small streams): delivered documents must be a prefix of the specification's sequence, the injected error delivered last, then close. non-trivial = stream with >= 2 chunks; distinct = by (stream, fragmentation, failure offset)"
+	c.Ev.Coverage.Rule = "NDJSON streams of 1..400 documents of very different sizes (a share with white space between tokens, and lines whose last scalar — every kind — sits 1..8 bytes before the end of the line with white space before the closer) with blank lines anywhere (also only blank lines at the end, CRLF), read through a reader that fragments at sizes from {1,2,3,7,64,4095,4096,4097,random,whole} (cuts inside tokens, inside blank runs, right before/after LF), with the reuse channel fed never/sometimes/always, one run in five with a consumer that lags behind the reader (queue full when the reader ends); chunks in which an escape sequence straddles the 64-byte block boundary at which stage 1 hands over a full 1408-entry index buffer (five line shapes, boundary swept); streams longer than the 10 MiB read chunk (a 250 KiB line across the cut, several chunks in flight, buffers coming back through the reuse channel; judged against the per-line dumps); delivered roots in order must equal the Coq specification nd_spec of the stream, followed by io.EOF and close, nothing after the error. With an injected reader error at a sweep of offsets (every offset for small streams): delivered documents must be a prefix of the specification's sequence, the injected error delivered last, then close. non-trivial = stream with >= 2 chunks; distinct = by (stream, fragmentation, failure offset)"
 	sizeSets := [][]int{{1}, {2}, {3}, {7}, {64}, {4095}, {4096}, {4097}, {1 << 20}, {1, 64, 3}, {5, 1, 1, 200}, nil}
 	type job struct {
 		stream []byte
@@ -214,6 +215,7 @@ func checkC09(c *Ctx) {
 			jobs = append(jobs, j)
 		}
 	}
+	c.c09HugeStream(r)
 	var reqs []string
 	for _, j := range jobs {
 		reqs = append(reqs, "specnd "+hexOrDash(j.stream))
@@ -266,4 +268,92 @@ func minInt(a, b int) int {
 		return a
 	}
 	return b
+}
+
+// c09HugeStream: streams longer than ParseNDStream's 10 MiB read chunk, delivered by a reader
+// that fills whatever it is given — the chunk is cut at 10 MiB, completed up to the next line
+// feed (one line is longer than the 1 KiB head-room of the chunk buffer), several chunks are
+// parsed concurrently and forwarded in order, consumed buffers come back through the reuse
+// channel.  Too large for the oracle: the expected sequence is the concatenation of the dumps
+// of the (64 distinct) lines, each parsed alone.
+func (c *Ctx) c09HugeStream(r *Rng) {
+	var pool [][]byte
+	var dumps []string
+	for len(pool) < 64 {
+		d := genDoc(r, &GenOpts{MaxDepth: 4, MaxFan: 6, TopFan: 8 + r.Intn(60), WS: r.Intn(4)})
+		if bytes.IndexByte(d, '\n') >= 0 || bytes.IndexByte(d, '\r') >= 0 {
+			continue
+		}
+		out := implParse(d, false, true, nil)
+		if out.Err {
+			continue
+		}
+		s, err := dumpDoc(out.PJ)
+		if err != nil {
+			continue
+		}
+		pool, dumps = append(pool, d), append(dumps, s)
+	}
+	// one long line (an array of ~40000 numbers, ~250 KiB)
+	{
+		var sb strings.Builder
+		sb.WriteString("[")
+		for i := 0; i < 40000; i++ {
+			if i > 0 {
+				sb.WriteString(",")
+			}
+			fmt.Fprintf(&sb, "%d", i*7919)
+		}
+		sb.WriteString("]")
+		d := []byte(sb.String())
+		if out := implParse(d, false, true, nil); !out.Err {
+			if s, err := dumpDoc(out.PJ); err == nil {
+				pool, dumps = append(pool, d), append(dumps, s)
+			}
+		}
+	}
+	long := len(pool) - 1
+	for variant := 0; variant < c.N(2, 6); variant++ {
+		target := (10 << 20) + (1+variant%3)*(3<<20)/2 + r.Intn(1<<20)
+		var st bytes.Buffer
+		var want strings.Builder
+		placed := false
+		for st.Len() < target {
+			k := r.Intn(long)
+			// the long line straddles the 10 MiB cut
+			if !placed && st.Len() > (10<<20)-len(pool[long])/2 {
+				k, placed = long, true
+			}
+			st.Write(pool[k])
+			if variant%2 == 1 {
+				st.WriteString("\r\n")
+			} else {
+				st.WriteString("\n")
+			}
+			want.WriteString(dumps[k])
+		}
+		data := st.Bytes()
+		sizes := [][]int{{1 << 30}, {1 << 22}, {(10 << 20) - 1, 1, 4096}}[variant%3]
+		out := runStream(&fragReader{data: data, sizes: sizes, failAt: -1}, variant%3, r)
+		c.Ev.Count("huge-stream", []byte(fmt.Sprint(variant, len(data))), out.nvalues >= 2)
+		c.Ev.Dist(fmt.Sprintf("huge-stream-chunks:%d", out.nvalues))
+		info := map[string]interface{}{"stream_bytes": len(data), "fragment_sizes": fmt.Sprint(sizes), "reuse_mode": variant % 3, "values": out.nvalues, "final_error": fmt.Sprint(out.finalErr), "closed": out.closed,
+			"generator": "c09HugeStream variant " + fmt.Sprint(variant) + " (regenerated from the seed on replay)"}
+		switch {
+		case out.timeout || !out.closed:
+			c.Violate("stream", "ParseNDStream did not finish on a stream longer than its 10 MiB chunk", "stream-huge-hang", info)
+		case out.extra != "":
+			c.Violate("stream", "something was delivered after the final error", "stream-huge-after-error", info)
+		case out.finalErr != io.EOF || out.docs != want.String():
+			d := out.docs
+			w := want.String()
+			n := 0
+			for n < len(d) && n < len(w) && d[n] == w[n] {
+				n++
+			}
+			info["first_difference_at_dump_byte"] = n
+			info["delivered_there"], info["expected_there"] = trunc(d[n:], 200), trunc(w[n:], 200)
+			c.Violate("stream", "documents delivered for a stream longer than the 10 MiB read chunk differ from the stream's lines, or it did not end with io.EOF", "stream-huge-docs", info)
+		}
+	}
 }
